@@ -211,9 +211,7 @@ pub proof fn lemma_dist_bound(net: &Network, a: NodeIdx, b: NodeIdx)
     assert(net.nodes@.contains_key(a) && net.nodes@.contains_key(b));
     let l1 = net.sp_node(a).sp_end_location();
     let l2 = net.sp_node(b).sp_start_location();
-    if l1 is Station && l2 is Station {
-        assert(net.locations.stations@.contains_key(l1->Station_0) && net.locations.stations@.contains_key(l2->Station_0));
-    }
+    lemma_locations_wf2(&net.locations, l1, l2);
 }
 /// the depots of an admissible tour are nodes of the network
 pub proof fn lemma_tour_ok_depots(net: &Network, t: &Tour)
@@ -880,5 +878,277 @@ pub proof fn lemma_remove_vehicle_wf(old_t: TView, new_t: TView, net: &Network, 
     }
     assert forall|x: CycleIdx| #[trigger] new_t.empty.contains(x) <==> (0 <= x < new_t.n() && new_t.cyc(x as int).len() == 0) by {
         if x < old_t.n() && x != k { assert(new_t.cyc(x as int) == old_t.cyc(x as int)); }
+    }
+}
+
+/// C15, add_vehicle_at_the_end: vehicle v (in no cycle so far) is appended to cycle k
+pub proof fn lemma_add_at_end_wf(old_t: TView, new_t: TView, net: &Network, tours: Map<VehicleIdx, Tour>, v: VehicleIdx, kk: CycleIdx, nc: TransitionCycle)
+    requires
+        old_t.wf(net, tours),
+        !old_t.lookup.contains_key(v),
+        0 <= kk < old_t.n(),
+        tours.contains_key(v) && tour_ok(net, &tours[v]),
+        old_t.total_len() < max_vehicles(),
+        new_t.cycles == old_t.cycles.update(kk as int, nc),
+        nc.cycle@ == old_t.cyc(kk as int).push(v),
+        nc.maintenance_counter == spec_cycle_counter(net, tours, nc.cycle@),
+        new_t.lookup == old_t.lookup.insert(v, kk),
+        new_t.total_counter == old_t.total_counter - old_t.cycles[kk as int].maintenance_counter + nc.maintenance_counter,
+        new_t.total_violation == old_t.total_violation - max0(old_t.cycles[kk as int].maintenance_counter as int) + max0(nc.maintenance_counter as int),
+    ensures
+        new_t.wf_but_empty(net, tours),
+        new_t.total_len() == old_t.total_len() + 1,
+        // what empty_cycles has to look like afterwards: k is no longer listed
+        (new_t.empty.no_duplicates() && forall|x: CycleIdx| #[trigger] new_t.empty.contains(x) <==> (old_t.empty.contains(x) && x != kk))
+            ==> new_t.wf_empty(),
+{
+    let k = kk as int;
+    let c = old_t.cyc(k);
+    let d = nc.cycle@;
+    // v occurs in no cycle
+    assert forall|i: int, a: int| 0 <= i < old_t.n() && 0 <= a < old_t.cyc(i).len() implies #[trigger] old_t.cyc(i)[a] != v by {
+        assert(old_t.lookup.contains_key(old_t.cyc(i)[a]));
+    }
+    assert(!c.contains(v)) by {
+        if c.contains(v) {
+            let a = choose|a: int| 0 <= a < c.len() && c[a] == v;
+            assert(old_t.cyc(k)[a] == v);
+        }
+    }
+    lemma_push_contains(c, v);
+    assert forall|a: int| 0 <= a < d.len() implies
+        tours.contains_key(#[trigger] d[a]) && tour_ok(net, &tours[d[a]])
+        && !(old_t.lookup.contains_key(d[a]) && old_t.cycle_of(d[a]) != k)
+        && new_t.lookup.contains_key(d[a]) && new_t.cycle_of(d[a]) == k by {
+        if a < c.len() { assert(d[a] == old_t.cyc(k)[a]); }
+    }
+    assert forall|x: VehicleIdx| #[trigger] new_t.lookup.contains_key(x) implies
+        (d.contains(x) && new_t.cycle_of(x) == k)
+        || (old_t.lookup.contains_key(x) && old_t.cycle_of(x) != k && new_t.cycle_of(x) == old_t.cycle_of(x)) by {
+        if x != v && old_t.cycle_of(x) == k {
+            assert(old_t.cyc(old_t.cycle_of(x)).contains(x));
+        }
+    }
+    lemma_frame(old_t, new_t, net, tours, tours, k, nc);
+    if new_t.empty.no_duplicates() && forall|x: CycleIdx| #[trigger] new_t.empty.contains(x) <==> (old_t.empty.contains(x) && x != k) {
+        assert forall|x: CycleIdx| #[trigger] new_t.empty.contains(x) <==> (0 <= x < new_t.n() && new_t.cyc(x as int).len() == 0) by {
+            if x < old_t.n() && x != k { assert(new_t.cyc(x as int) == old_t.cyc(x as int)); }
+        }
+    }
+}
+
+// ---- three_opt ----------------------------------------------------------------------------------------
+/// C15: the cycle after a 3-opt move: c[..=i] + c[j+1..=k] + c[i+1..=j] + c[k+1..]
+pub open spec fn three_opt_seq(c: Seq<VehicleIdx>, i: int, j: int, k: int) -> Seq<VehicleIdx> {
+    c.subrange(0, i + 1) + c.subrange(j + 1, k + 1) + c.subrange(i + 1, j + 1) + c.subrange(k + 1, c.len() as int)
+}
+pub proof fn lemma_sum_append4(a: Seq<int>, b: Seq<int>, c: Seq<int>, d: Seq<int>)
+    ensures sum_seq(a + b + c + d) == sum_seq(a) + sum_seq(b) + sum_seq(c) + sum_seq(d),
+{
+    lemma_sum_append(a, b);
+    lemma_sum_append(a + b, c);
+    lemma_sum_append(a + b + c, d);
+}
+/// position in the old cycle of the vehicle at position q of the new cycle
+pub open spec fn three_opt_src(i: int, j: int, k: int, q: int) -> int {
+    if q <= i { q } else if q <= i + (k - j) { q + (j - i) } else if q <= k { q - (k - j) } else { q }
+}
+pub proof fn lemma_three_opt_index(c: Seq<VehicleIdx>, i: int, j: int, k: int, q: int)
+    requires 0 <= i < j < k < c.len(), 0 <= q < c.len(),
+    ensures three_opt_seq(c, i, j, k).len() == c.len(),
+        0 <= three_opt_src(i, j, k, q) < c.len(),
+        three_opt_seq(c, i, j, k)[q] == c[three_opt_src(i, j, k, q)],
+{
+}
+/// the depot trips of the new cycle, block by block
+pub open spec fn three_opt_edges(net: &Network, tours: Map<VehicleIdx, Tour>, c: Seq<VehicleIdx>, i: int, j: int, k: int) -> Seq<int> {
+    let n = c.len() as int;
+    let b = edge_seq(net, tours, c);
+    b.subrange(0, i + 1).update(i, depot_edge(net, tours, c[i], c[j + 1]))
+        + b.subrange(j + 1, k + 1).update(k - j - 1, depot_edge(net, tours, c[k], c[i + 1]))
+        + b.subrange(i + 1, j + 1).update(j - i - 1, depot_edge(net, tours, c[j], c[(k + 1) % n]))
+        + b.subrange(k + 1, n)
+}
+pub proof fn lemma_three_opt_edge(net: &Network, tours: Map<VehicleIdx, Tour>, c: Seq<VehicleIdx>, i: int, j: int, k: int, q: int)
+    requires 0 <= i < j < k < c.len(), 0 <= q < c.len(),
+    ensures three_opt_edges(net, tours, c, i, j, k).len() == c.len(),
+        edge_seq(net, tours, three_opt_seq(c, i, j, k))[q] == three_opt_edges(net, tours, c, i, j, k)[q],
+{
+    let n = c.len() as int;
+    let c2 = three_opt_seq(c, i, j, k);
+    let q2 = (q + 1) % n;
+    lemma_mod_next(q, n);
+    lemma_mod_next(k, n);
+    lemma_three_opt_index(c, i, j, k, q);
+    lemma_three_opt_index(c, i, j, k, q2);
+    let o = three_opt_src(i, j, k, q);
+    let o2 = three_opt_src(i, j, k, q2);
+    lemma_mod_next(o, n);
+    let e = three_opt_edges(net, tours, c, i, j, k);
+    let b = edge_seq(net, tours, c);
+    assert(edge_seq(net, tours, c2)[q] == depot_edge(net, tours, c[o], c[o2]));
+    if q < i {
+        assert(e[q] == b[q]);
+    } else if q == i {
+    } else if q < i + (k - j) {
+        assert(e[q] == b[o]);
+    } else if q == i + (k - j) {
+    } else if q < k {
+        assert(e[q] == b[o]);
+    } else if q == k {
+    } else {
+        assert(e[q] == b[q]);
+    }
+}
+/// the counter after a 3-opt move: the depot trips (i,i+1), (j,j+1), (k,k+1) are replaced by
+/// (i,j+1), (k,i+1), (j,k+1) (indices of the old cycle, k+1 taken cyclically)
+pub proof fn lemma_three_opt(net: &Network, tours: Map<VehicleIdx, Tour>, c: Seq<VehicleIdx>, i: int, j: int, k: int)
+    requires 0 <= i < j < k < c.len(),
+    ensures ({
+        let n = c.len() as int;
+        spec_cycle_counter(net, tours, three_opt_seq(c, i, j, k)) == spec_cycle_counter(net, tours, c)
+            - depot_edge(net, tours, c[i], c[i + 1]) - depot_edge(net, tours, c[j], c[j + 1]) - depot_edge(net, tours, c[k], c[(k + 1) % n])
+            + depot_edge(net, tours, c[i], c[j + 1]) + depot_edge(net, tours, c[j], c[(k + 1) % n]) + depot_edge(net, tours, c[k], c[i + 1])
+    }),
+{
+    let n = c.len() as int;
+    let c2 = three_opt_seq(c, i, j, k);
+    assert(c2.len() == n);
+    lemma_three_opt_counters(tours, c, i, j, k);
+    lemma_three_opt_edge_sum(net, tours, c, i, j, k);
+}
+/// counters: a permutation of the same four blocks
+pub proof fn lemma_three_opt_counters(tours: Map<VehicleIdx, Tour>, c: Seq<VehicleIdx>, i: int, j: int, k: int)
+    requires 0 <= i < j < k < c.len(),
+    ensures sum_seq(counter_seq(tours, three_opt_seq(c, i, j, k))) == sum_seq(counter_seq(tours, c)),
+{
+    let n = c.len() as int;
+    let c2 = three_opt_seq(c, i, j, k);
+    let a = counter_seq(tours, c);
+    let a2 = counter_seq(tours, c2);
+    let a_1 = a.subrange(0, i + 1); let a_2 = a.subrange(i + 1, j + 1); let a_3 = a.subrange(j + 1, k + 1); let a_4 = a.subrange(k + 1, n);
+    assert(a =~= a_1 + a_2 + a_3 + a_4);
+    assert forall|q: int| 0 <= q < n implies #[trigger] a2[q] == (a_1 + a_3 + a_2 + a_4)[q] by {
+        lemma_three_opt_index(c, i, j, k, q);
+    }
+    assert(a2 =~= a_1 + a_3 + a_2 + a_4);
+    lemma_sum_append4(a_1, a_2, a_3, a_4);
+    lemma_sum_append4(a_1, a_3, a_2, a_4);
+}
+/// depot trips: the same four blocks, the last trip of the first three blocks is redirected
+pub proof fn lemma_three_opt_edge_sum(net: &Network, tours: Map<VehicleIdx, Tour>, c: Seq<VehicleIdx>, i: int, j: int, k: int)
+    requires 0 <= i < j < k < c.len(),
+    ensures ({
+        let n = c.len() as int;
+        sum_seq(edge_seq(net, tours, three_opt_seq(c, i, j, k))) == sum_seq(edge_seq(net, tours, c))
+            - depot_edge(net, tours, c[i], c[i + 1]) - depot_edge(net, tours, c[j], c[j + 1]) - depot_edge(net, tours, c[k], c[(k + 1) % n])
+            + depot_edge(net, tours, c[i], c[j + 1]) + depot_edge(net, tours, c[j], c[(k + 1) % n]) + depot_edge(net, tours, c[k], c[i + 1])
+    }),
+{
+    let n = c.len() as int;
+    let c2 = three_opt_seq(c, i, j, k);
+    let kn = (k + 1) % n;
+    lemma_mod_next(i, n);
+    lemma_mod_next(j, n);
+    lemma_mod_next(k, n);
+    let b = edge_seq(net, tours, c);
+    let b2 = edge_seq(net, tours, c2);
+    let b_1 = b.subrange(0, i + 1); let b_2 = b.subrange(i + 1, j + 1); let b_3 = b.subrange(j + 1, k + 1); let b_4 = b.subrange(k + 1, n);
+    let x = depot_edge(net, tours, c[i], c[j + 1]);
+    let y = depot_edge(net, tours, c[k], c[i + 1]);
+    let z = depot_edge(net, tours, c[j], c[kn]);
+    let d_1 = b_1.update(i, x);
+    let d_3 = b_3.update(k - j - 1, y);
+    let d_2 = b_2.update(j - i - 1, z);
+    assert(b =~= b_1 + b_2 + b_3 + b_4);
+    let e = three_opt_edges(net, tours, c, i, j, k);
+    assert(e == d_1 + d_3 + d_2 + b_4);
+    assert(c2.len() == n);
+    assert forall|q: int| 0 <= q < n implies #[trigger] b2[q] == e[q] by {
+        lemma_three_opt_edge(net, tours, c, i, j, k, q);
+    }
+    assert(b2 =~= e);
+    lemma_sum_append4(b_1, b_2, b_3, b_4);
+    lemma_sum_append4(d_1, d_3, d_2, b_4);
+    lemma_sum_update(b_1, i, x);
+    lemma_sum_update(b_3, k - j - 1, y);
+    lemma_sum_update(b_2, j - i - 1, z);
+    assert(b_1[i] == b[i] && b_3[k - j - 1] == b[k] && b_2[j - i - 1] == b[j]);
+}
+/// everything the executable 3-opt move needs: its six vehicles have tours whose depots are nodes of
+/// the network, the six depot trips and the old counter are small, and the counter formula
+pub proof fn lemma_three_opt_exec(net: &Network, tours: Map<VehicleIdx, Tour>, c: Seq<VehicleIdx>, i: int, j: int, k: int)
+    requires 0 <= i < j < k < c.len(), c.len() <= max_vehicles(), cycle_tours_ok(net, tours, c),
+    ensures ({
+        let n = c.len() as int;
+        let kn = (k + 1) % n;
+        &&& (i + 1) % n == i + 1 && (j + 1) % n == j + 1 && 0 <= kn < n
+        &&& net.wf()
+        &&& tours.contains_key(c[i]) && tour_ok(net, &tours[c[i]]) && net.has(sp_end_depot(&tours[c[i]]))
+        &&& tours.contains_key(c[j]) && tour_ok(net, &tours[c[j]]) && net.has(sp_end_depot(&tours[c[j]]))
+        &&& tours.contains_key(c[k]) && tour_ok(net, &tours[c[k]]) && net.has(sp_end_depot(&tours[c[k]]))
+        &&& tours.contains_key(c[i + 1]) && tour_ok(net, &tours[c[i + 1]]) && net.has(sp_start_depot(&tours[c[i + 1]]))
+        &&& tours.contains_key(c[j + 1]) && tour_ok(net, &tours[c[j + 1]]) && net.has(sp_start_depot(&tours[c[j + 1]]))
+        &&& tours.contains_key(c[kn]) && tour_ok(net, &tours[c[kn]]) && net.has(sp_start_depot(&tours[c[kn]]))
+        &&& 0 <= depot_edge(net, tours, c[i], c[i + 1]) <= counter_bound()
+        &&& 0 <= depot_edge(net, tours, c[j], c[j + 1]) <= counter_bound()
+        &&& 0 <= depot_edge(net, tours, c[k], c[kn]) <= counter_bound()
+        &&& 0 <= depot_edge(net, tours, c[i], c[j + 1]) <= counter_bound()
+        &&& 0 <= depot_edge(net, tours, c[j], c[kn]) <= counter_bound()
+        &&& 0 <= depot_edge(net, tours, c[k], c[i + 1]) <= counter_bound()
+        &&& -0x400_0000_0000_0000 <= spec_cycle_counter(net, tours, c) <= 0x400_0000_0000_0000
+        &&& spec_cycle_counter(net, tours, three_opt_seq(c, i, j, k)) == spec_cycle_counter(net, tours, c)
+            - depot_edge(net, tours, c[i], c[i + 1]) - depot_edge(net, tours, c[j], c[j + 1]) - depot_edge(net, tours, c[k], c[kn])
+            + depot_edge(net, tours, c[i], c[j + 1]) + depot_edge(net, tours, c[j], c[kn]) + depot_edge(net, tours, c[k], c[i + 1])
+    }),
+{
+    let t = tours;
+    let nn = c.len() as int;
+    lemma_mod_next(i, nn);
+    lemma_mod_next(j, nn);
+    lemma_mod_next(k, nn);
+    let kn = (k + 1) % nn;
+    lemma_counter_bound(net, t, c);
+    assert(nn * vehicle_bound() <= 0x400_0000_0000_0000) by (nonlinear_arith)
+        requires 0 <= nn <= 0x2_0000, vehicle_bound() == 0x200_0000_0000;
+    assert(tour_ok(net, &t[c[i]]) && tour_ok(net, &t[c[i + 1]]) && tour_ok(net, &t[c[j]])
+        && tour_ok(net, &t[c[j + 1]]) && tour_ok(net, &t[c[k]]) && tour_ok(net, &t[c[kn]]));
+    lemma_edge_bound(net, t, c[i], c[i + 1]);
+    lemma_edge_bound(net, t, c[j], c[j + 1]);
+    lemma_edge_bound(net, t, c[k], c[kn]);
+    lemma_edge_bound(net, t, c[i], c[j + 1]);
+    lemma_edge_bound(net, t, c[j], c[kn]);
+    lemma_edge_bound(net, t, c[k], c[i + 1]);
+    lemma_tour_ok_depots(net, &t[c[i]]);
+    lemma_tour_ok_depots(net, &t[c[i + 1]]);
+    lemma_tour_ok_depots(net, &t[c[j]]);
+    lemma_tour_ok_depots(net, &t[c[j + 1]]);
+    lemma_tour_ok_depots(net, &t[c[k]]);
+    lemma_tour_ok_depots(net, &t[c[kn]]);
+    lemma_three_opt(net, t, c, i, j, k);
+}
+/// a 3-opt move rearranges the cycle (what replace_cycle asks of its argument)
+pub proof fn lemma_three_opt_permutation(c: Seq<VehicleIdx>, i: int, j: int, k: int)
+    requires 0 <= i < j < k < c.len(), c.no_duplicates(),
+    ensures is_permutation_of(three_opt_seq(c, i, j, k), c),
+{
+    let c2 = three_opt_seq(c, i, j, k);
+    assert forall|q1: int, q2: int| 0 <= q1 < c2.len() && 0 <= q2 < c2.len() && q1 != q2 implies c2[q1] != c2[q2] by {
+        lemma_three_opt_index(c, i, j, k, q1);
+        lemma_three_opt_index(c, i, j, k, q2);
+        assert(three_opt_src(i, j, k, q1) != three_opt_src(i, j, k, q2));
+    }
+    assert forall|v: VehicleIdx| c2.contains(v) <==> c.contains(v) by {
+        if c2.contains(v) {
+            let q = choose|q: int| 0 <= q < c2.len() && c2[q] == v;
+            lemma_three_opt_index(c, i, j, k, q);
+            assert(c[three_opt_src(i, j, k, q)] == v);
+        }
+        if c.contains(v) {
+            let o = choose|o: int| 0 <= o < c.len() && c[o] == v;
+            let q = if o <= i { o } else if o <= j { o + (k - j) } else if o <= k { o - (j - i) } else { o };
+            lemma_three_opt_index(c, i, j, k, q);
+            assert(c2[q] == v);
+        }
     }
 }
